@@ -5,6 +5,8 @@ package checks
 import (
 	"encoding/json"
 	"fmt"
+	"os"
+	"path/filepath"
 	"sort"
 	"strconv"
 	"strings"
@@ -49,6 +51,11 @@ var c20Alphabet = []string{
 	"SELECT n FROM (SELECT n FROM t) AS s",
 	"SELECT n FROM t WHERE n IN (SELECT n FROM t)",
 	"DELETE FROM t WHERE n >= 100",
+	// an absolute path that has to be cleaned before it can be recognised as the cached file; a locking read whose
+	// table stands on the right-hand side of a set operator
+	"SELECT n FROM `$DIR/sub/../t`",
+	"SELECT n FROM `$DIR/./t.csv`",
+	"SELECT n FROM u UNION ALL SELECT n FROM t FOR UPDATE",
 }
 
 // other ways of reading t: for the reference they are the plain SELECT
@@ -57,7 +64,12 @@ var c20Same = map[string]string{
 	"SELECT x.n FROM t AS x":                       "SELECT n FROM t",
 	"SELECT n FROM (SELECT n FROM t) AS s":         "SELECT n FROM t",
 	"SELECT n FROM t WHERE n IN (SELECT n FROM t)": "SELECT n FROM t",
+	"SELECT n FROM `$DIR/sub/../t`":                "SELECT n FROM t",
+	"SELECT n FROM `$DIR/./t.csv`":                 "SELECT n FROM t",
 }
+
+// the first c20CoreLen entries of the alphabet are the core statements
+const c20CoreLen = 8
 
 // statement boundaries each alphabet entry passes through, as reference steps ("" = no table access)
 var c20Steps = map[string][]string{
@@ -115,6 +127,8 @@ func (m *c20Model) step(stmt string) []int {
 		stmt = same
 	}
 	switch stmt {
+	case "SELECT n FROM u UNION ALL SELECT n FROM t FOR UPDATE":
+		return append(append([]int{}, m.read("u", true).rows...), m.read("t", true).rows...)
 	case "DELETE FROM t WHERE n >= 100":
 		e := m.read("t", true)
 		kept := e.rows[:0:0]
@@ -274,7 +288,8 @@ func c20Eval(c *core.Ctx, dir string, cs c20Case, states map[string]struct{}) {
 		}
 		k++
 	}
-	r := tenv.Exec(strings.Join(stmts, "; ") + ";")
+	os.MkdirAll(filepath.Join(dir, "sub"), 0755)
+	r := tenv.Exec(strings.ReplaceAll(strings.Join(stmts, "; ")+";", "$DIR", dir))
 	fsx.OnStmt = nil
 	if r.Err == nil && r.Panic == nil {
 		m.commit() // normal end of the program: auto-commit
@@ -324,7 +339,7 @@ func c20Eval(c *core.Ctx, dir string, cs c20Case, states map[string]struct{}) {
 	}
 	var left []string
 	for n := range snap {
-		if n != "t.csv" && n != "u.csv" {
+		if n != "t.csv" && n != "u.csv" && n != "sub/" {
 			left = append(left, n)
 		}
 	}
@@ -415,6 +430,19 @@ func c20Run(c *core.Ctx) {
 			return
 		}
 		for a := range c20Alphabet {
+			// quick tier: at most one statement of the variant group (other spellings of t, block forms, DELETE,
+			// the set operator) in a sequence of the greatest length; all others are complete
+			if !c.Thorough() && len(seq) == maxLen-1 && a >= c20CoreLen {
+				variants := 0
+				for _, b := range seq {
+					if b >= c20CoreLen {
+						variants++
+					}
+				}
+				if variants >= 1 {
+					continue
+				}
+			}
 			seq = append(seq, a)
 			rec()
 			seq = seq[:len(seq)-1]
